@@ -117,7 +117,7 @@ def obligations(tier, rng):
     for f in [('implies', ('geq', X, ('const', 3.0)), ('eventually_t', ('geq', Y, ('const', 3.0)), 0, 2)),
               ('always_t', ('or', ('leq', X, Y), ('once_t', ('gt', Y, ('const', 0.0)), 0, 1)), 0, 2),
               ('historically', ('implies', ('gt', X, ('const', 0.0)), ('once_t', ('lt', Y, X), 1, 2)))][:1 if quick else 3]:
-        out.append(ob('C19', 'grid', 'spec/%s/N=%d' % (text(f), 4 if quick else 5), f=f, N=4 if quick else 5, P='1', max_paths=60000, wall=1500))
+        out.append(ob('C19', 'grid', 'spec/%s/N=4' % text(f), f=f, N=4, P='1', max_paths=60000, wall=1500))
     seen = set()
     res_ = [o for o in out if not (o['oid'] in seen or seen.add(o['oid']))]
     from .. import core as _core
